@@ -141,4 +141,19 @@ CLAIMS = {
                    '(violated today: known finding).',
         'not_decided': 'metamorphic equality with the variant of a scenario in which the dependency is declared.',
     },
+    'C08': {
+        'design': '5.8',
+        'technique': 'null-check discipline + writer/reader format table agreement + must-pass-through (flush, whole record) + write-set and skip-exactness + temp-then-replace order over clang CFG facts',
+        'decides': 'every memchr result in BuildLog::Load is tested and the null / no-newline side updates no entry; one '
+                   'record is one fprintf ending in one newline and is flushed before the next record or success; the '
+                   'written format and the parse sequence agree field by field (conversion, base, separator, order) '
+                   'and share the header constant and version range; applying a record overwrites all four fields; an '
+                   'unsupported version is unlinked, loads nothing and yields LOAD_NOT_FOUND, callers fail only on '
+                   'LOAD_ERROR; Restat writes only mtime, from Stat, for entries selected by full equality; Recompact '
+                   'writes no field, drops/erases only paths reported dead; IsPathDead is true only as Stat==0 of a '
+                   'path without producer; rewrites go Close -> temp file -> fclose -> ReplaceContent (unlink then '
+                   'rename, failures propagated).',
+        'not_decided': 'equality of the loaded state with a model folded over the complete lines for all byte prefixes; '
+                       'buffer arithmetic inside LineReader.',
+    },
 }
